@@ -16,7 +16,10 @@ def run(tier, seed, rep, replay=None):
     types = facts_jobs.traffic_types(path)
     maps = facts_jobs.example_maps()
     rng = random.Random(seed)
-    grid = [(1, 1), (16, 1), (128, 8), (256, 16), (1024, 128)] if tier == "quick" else [(1, 1), (2, 3), (16, 1), (64, 4), (128, 8), (100, 7), (1024, 128)]
+    # bursts beyond MEM_SIZE (wide > 1024 beats, narrow > 8192) must be refused by the generator: if it writes jobs for
+    # them they are checked against the maps like any others
+    grid = [(1, 1), (16, 1), (128, 8), (256, 16), (1024, 128), (2048, 8), (1025, 1)] if tier == "quick" else \
+        [(1, 1), (2, 3), (16, 1), (64, 4), (128, 8), (100, 7), (1024, 128), (1025, 1), (2048, 8), (4096, 16), (8192, 1), (16, 8193)]
     cases = []
     if replay is not None:
         cases = [replay["case"]["run"]] if "run" in replay["case"] else []
@@ -55,9 +58,8 @@ def run(tier, seed, rep, replay=None):
             if expect_ok:
                 rep.fail("C19:generator-fails", f"gen_mesh_traffic({c}) raises {r['error']}", {"run": c})
             continue
-        if not expect_ok:
-            continue
-        # (c) every real job inside one rule of every example map -- independent of the model
+        # (c) every real job inside one rule of every example map -- independent of the model (also for settings the
+        # generator should have refused)
         for x in range(nx):
             for y in range(ny):
                 tile = r["tiles"][f"{x},{y}"]
@@ -71,6 +73,8 @@ def run(tier, seed, rep, replay=None):
                                              f"{kind} job is inside no rule of the address map of {ex}",
                                              {"run": c, "tile": [x, y]}, observed=[ln, hex(s), hex(d)],
                                              expected="inside one mapped range")
+        if not expect_ok:
+            continue
         # the uniform oracle: draws come in (x, y) pairs, re-drawn while equal to the local tile
         draws = list(r["draws"])
         di = 0
